@@ -53,7 +53,7 @@ def shrink_and_report(ctx, sr, g, t, xs, got, want, how):
                   {"kind": "transform", "transform": list(t), "sr": sr, "grammar": small, "original_grammar": g, "xs": list(xs), "observed": str(got), "expected": str(want), "how": how})
 
 
-def stream(ctx, grammars, sr, maxlen, hashseed):
+def stream(ctx, grammars, sr, maxlen, hashseed, same_object=False):
     coq_sr = "Qc" if sr == "frac" else "bool"
     tab = LangTable(ctx, coq_sr, f"orig-{sr}")
     strs = [strings_for(ctx, g, maxlen) for g in grammars]
@@ -66,7 +66,12 @@ def stream(ctx, grammars, sr, maxlen, hashseed):
         for f in M.features(g):
             ctx.dist(f"{sr}:{f}")
         ctx.dist(f"{sr}:grammars")
-    res = TR.run_transforms(grammars, sr, strs, ctx.rng, hashseed=hashseed)
+    # same_object: all transformations are applied, in a random order, to ONE grammar object (caches, memo tables and
+    # name counters are shared between them) instead of to a fresh copy each
+    res = TR.run_transforms(grammars, sr, strs, ctx.rng, hashseed=hashseed, fresh=not same_object, shuffle=same_object)
+    if same_object:
+        for _ in grammars:
+            ctx.dist(f"{sr}:same-object")
     # second table: the transformed grammars evaluated by the same proved reference semantics
     otab = LangTable(ctx, coq_sr, f"out-{sr}")
     outs = []
@@ -178,6 +183,8 @@ def run(ctx):
     stream(ctx, gs, "frac", 3, 0)
     bg = [M.rand_grammar(ctx.rng, boolean=True, pnull=0.2, punary=0.25) for _ in range(nG)]
     stream(ctx, bg, "bool", 3, 1)
+    stream(ctx, gs[: max(6, nG // 3)], "frac", 3, 2, same_object=True)
+    stream(ctx, bg[: max(6, nG // 3)], "bool", 3, 3, same_object=True)
     stream_float(ctx, 15 if quick else 150, 3)
 
 
